@@ -32,7 +32,7 @@ pub fn text(mut v: Vec<u8>) -> String {
 }
 
 pub fn err_str(e: &io::Error) -> String {
-    format!("!{:?}:{}", e.kind(), e)
+    format!("\u{15}{:?}:{}", e.kind(), e)
 }
 
 // ------------------------------------------------------------------------------------------------
@@ -577,7 +577,7 @@ pub fn deep_feature(d: &mut Deep, rec: &dyn gff::feature::Record) {
                 d.val("akey", &k);
                 keys.push(k.to_vec());
                 d.val("as_string", v.as_string());
-                d.val("is_array", v.as_array().is_some());
+                d.val("is_array", matches!(v, gff::feature::record::attributes::field::Value::Array(_)));
                 for r in v.iter() {
                     match r {
                         Ok(x) => d.val("aval", x),
